@@ -514,12 +514,22 @@ pub fn dirty(n: usize) -> Vec<u8> {
 
 /// Build `cfg` and write it into an exact-size (dirty) buffer.
 pub fn build_bytes(cfg: &Cfg, how: How) -> Result<Vec<u8>, WOut> {
+    build_bytes_in(cfg, how, true)
+}
+
+/// The same into a zeroed buffer: for comparisons between two images of the same member (alone / inside a
+/// compound, one history / another), where a byte the writer leaves unwritten must not look like a difference.
+pub fn build_bytes_zeroed(cfg: &Cfg, how: How) -> Result<Vec<u8>, WOut> {
+    build_bytes_in(cfg, how, false)
+}
+
+fn build_bytes_in(cfg: &Cfg, how: How, dirty_buffer: bool) -> Result<Vec<u8>, WOut> {
     with_writer(cfg, how, |w| match calc(w) {
         WOut::Ok(n) => {
             if n > (1 << 26) {
                 return Err(WOut::Ok(n));
             }
-            let mut buf = dirty(n);
+            let mut buf = if dirty_buffer { dirty(n) } else { vec![0u8; n] };
             match write(w, &mut buf) {
                 WOut::Ok(m) if m == n => Ok(buf),
                 WOut::Ok(m) => Err(WOut::WrongSize { announced: n, written: m }),
